@@ -147,6 +147,19 @@ func (w *Worker) Account(c Case, r Result) {
 
 func (w *Worker) Count(name string, n int64) { w.Counters[name] += n }
 
+// Flooded: the unit has already seen so many violating cases that enumerating the rest of it
+// would only repeat them (each may cost a full statement budget). Enumerators may stop; the unit
+// is then reported as not exhaustive — the violations found so far are reported as usual.
+func (w *Worker) Flooded() bool {
+	if w.Counters["violating_cases"] > 3000 {
+		if w.Inexhaust == "" {
+			w.Inexhaust = "stopped after 3000 violating cases in this unit"
+		}
+		return true
+	}
+	return false
+}
+
 // Tick accounts for n cases that the unit's own fast path evaluated and found to hold (the
 // same oracle as Eval, without building a Case); violating cases always go through Do.
 func (w *Worker) Tick(n int64) {
